@@ -14,10 +14,17 @@ def lemma(name):
 
 
 def generate(name):
-    out = dict(name='lemma:' + name, sha=None, obligations=[], error=None, assumptions=[], paths=0)
+    out = dict(name='lemma:' + name, sha=None, obligations=[], groups=[], error=None, assumptions=[], paths=0)
     try:
         for i, (label, hyps, goal) in enumerate(LEMMAS[name]()):
-            out['obligations'].append(('lemma:%s/%s' % (name, label), 'lemma', to_smt2(hyps, goal), label))
+            oname = 'lemma:%s/%s' % (name, label)
+            out['obligations'].append((oname, 'lemma', 'g', label))
+            s = z3.Solver()
+            s.add(hyps)
+            p = z3.Bool('pyvc_goal_0')
+            s.add(z3.Implies(p, z3.Not(goal)))
+            text = s.to_smt2()
+            out['groups'].append(dict(prelude=text[:text.rindex('(check-sat)')], checks=[(oname, 'lemma', label, 'pyvc_goal_0')]))
     except Exception as e:
         import traceback
         out['error'] = 'CRASH: %s\n%s' % (e, traceback.format_exc())
